@@ -183,6 +183,8 @@ type CalleeSpec struct {
 	Event  string // non-empty: record as an event with this name (fresh results)
 	// MayPanic: fork a panic path
 	MayPanic bool
+	// Modular: the callee's own contract (its func block's ensures clauses) is assumed about the fresh results
+	Modular *Block
 	// HavocRecv: the callee may change these heap keys (prefix match)
 	Havoc []string
 	// Post: assumptions about results, as contract expressions over result/args (compiled by hook)
